@@ -31,7 +31,9 @@ LEVEL_NOTE = ("Reference matcher R-ignore implements exactly the five enumerated
 DIRS = ["src", "pkg", ".hid", "tests", "build", "node_modules", "venv"]
 FILES = ["a.py", "b.js", "c.ts", "d.java", "e.c", "f.cpp", "g.cs", ".h.py", "n.txt", "m.rb", "noext",
          # names whose language does not follow from "the usual extension": secondary extensions and whole-name rules
-         "h.h", "i.hpp", "j.cc", "k.mjs", "l.pyi", "BUILD", "SConstruct", "LICENSE", "Makefile"]
+         "h.h", "i.hpp", "j.cc", "k.mjs", "l.pyi", "BUILD", "SConstruct", "LICENSE", "Makefile",
+         # legitimate names with characters that option / config parsing might treat as separators
+         "p,q.py", "sp ace.js"]
 LANG_OF_EXT = {"py": "Python", "pyi": "Python", "js": "JavaScript", "mjs": "JavaScript", "ts": "TypeScript", "java": "Java", "c": "C", "h": "C",
                "cpp": "C++", "hpp": "C++", "cc": "C++", "cs": "C#"}
 LANG_OF_NAME = {"BUILD": "Python", "SConstruct": "Python"}
@@ -74,7 +76,9 @@ BUILTIN = [".bzr", ".direnv", ".eggs", ".git", ".git-rewrite", ".hg", ".ipynb_ch
            "venv", "test", "tests"]
 PATTERNS = ["pkg", "a.py", "src/", "pkg/", "*.js", "*.py", "src/pkg", "src/a.py", "src/*", "pkg/*",
             # root-anchored single component: only the top-level entry of that name
-            "/pkg", "/a.py"]
+            "/pkg", "/a.py",
+            # bare names containing a comma / a blank (one pattern each, not a list)
+            "p,q.py", "sp ace.js"]
 # ordered lists with a negation (last matching pattern wins); only combinations on which git and per-path matching agree
 NEGATION_LISTS = [["*.js", "!b.js"], ["pkg", "!src/pkg"], ["*.py", "!src/*.py"], ["src/*", "!src/a.py"]]
 
@@ -162,9 +166,11 @@ def calibrate():
         except ClassNotFound:
             name = None
         want = language_of(f)
-        got = name if name in Languages.by_name else None
+        # calibration is against PYGMENTS only (which lexer a name gets); whether codelimit's own registry still knows each of
+        # the seven languages is part of the property and is judged by the scans, not here
+        got = name if (name in SEVEN or name in Languages.by_name) else None
         if want != got:
-            raise core.HarnessError(f"name->language table disagrees with Pygments/codelimit for {f}: {want} vs {got}")
+            raise core.HarnessError(f"name->language table disagrees with Pygments for {f}: {want} vs {got}")
     if not any(os.access(os.path.join(d, "git"), os.X_OK) for d in os.environ.get("PATH", "").split(os.pathsep)):
         return "git not available"
     paths = [p for p in universal_paths() if not any(c.startswith(".") for c in p.split("/"))]
